@@ -385,9 +385,19 @@ func (t *StreamUnderlay) readOneSegment() (*segment, error) {
 			// No TCP data received. Caller will retry.
 			return nil, nil
 		}
-		err = fmt.Errorf("metadata: read %d bytes from StreamUnderlay failed: %w", readLen, err)
-		return nil, stderror.WrapErrorWithType(err, stderror.NETWORK_ERROR)
+		if stderror.IsTimeout(err) {
+			// The segment started to arrive just before the idle wait ran out.
+			// Wait for the rest of it.
+			common.SetReadTimeout(t.conn, readOneSegmentTimeout)
+			_, err = io.ReadFull(t.conn, encryptedMeta[n:])
+		}
+		if err != nil {
+			err = fmt.Errorf("metadata: read %d bytes from StreamUnderlay failed: %w", readLen, err)
+			return nil, stderror.WrapErrorWithType(err, stderror.NETWORK_ERROR)
+		}
 	}
+	// The time spent waiting for the segment is not taken from the time to receive it.
+	common.SetReadTimeout(t.conn, readOneSegmentTimeout)
 	t.inBytes.Add(int64(len(encryptedMeta)))
 	if t.isClient {
 		metrics.DownloadBytes.Add(int64(len(encryptedMeta)))
